@@ -126,10 +126,62 @@ def build_rows():
     return rows
 
 
+# huge n with a moderate mode (n p about 10^3): the set-up is as above, f(y)/f(m) by the product of the pmf ratios
+# (y - m terms); n, m as decimal strings, the proposal as dy = y - m.  Only region 2, anchors on both sides of
+# |y - m| = 20 (where the crate changes from the recursion to the squeeze and the Stirling-series test).
+HUGE = [(2 ** 40, 2.0 ** -30), (2 ** 60, 2.0 ** -50)]
+HUGE_T = HUGE + [(2 ** 50, 1.5 * 2.0 ** -40), (2 ** 62, 3 * 2.0 ** -55), (2 ** 33, 1.0 / 3.0 * 2.0 ** -22), (2 ** 53, 2.0 ** -42), (10 ** 12, 2e-9)]
+
+
+def build_huge(cases, maxa):
+    rows = []
+    for ci, (n, p0) in enumerate(cases):
+        p = mpf(p0); q = 1 - p
+        np_ = n * p; npq = np_ * q
+        p1 = floor(mpf('2.195') * sqrt(npq) - mpf('4.6') * q) + mpf('0.5')
+        f_m = np_ + p; m = int(floor(f_m))
+        x_m = m + mpf('0.5'); x_l = x_m - p1; x_r = x_m + p1
+        c = mpf('0.134') + mpf('20.5') / (mpf('15.3') + m)
+        p2 = p1 * (1 + 2 * c)
+        lam = lambda a: a * (1 + a / 2)
+        ll = lam((f_m - x_l) / (f_m - x_l * p)); lr = lam((x_r - f_m) / (x_r * q))
+        p4 = p2 + c / ll + c / lr
+
+        def ratio(y):               # f(y) / f(m)
+            r = mpf(1)
+            if y > m:
+                for i in range(m + 1, y + 1):
+                    r *= mpf(n - i + 1) / i * p / q
+            else:
+                for i in range(y + 1, m + 1):
+                    r /= mpf(n - i + 1) / i * p / q
+            return r
+        r2 = []
+        J = 1 << 14
+        for j in range(1, J):
+            u = mpf(j) / J * p4
+            if u > p1 and u <= p2:
+                x = x_l + (u - p1) / c
+                y = int(floor(x)); fr = x - y
+                if fr < 0.25 or fr > 0.75 or y < 0:
+                    continue
+                A = (ratio(y) - 1 + abs(x - x_m) / p1) / c
+                if A < 0.04 or A > 0.96:
+                    continue
+                r2.append((j, y - m, A))
+        if len(r2) > maxa:
+            step = len(r2) / float(maxa)
+            r2 = [r2[int(i * step)] for i in range(maxa)]
+        a2 = ',\n      '.join('[w1 |-> "%d", dy |-> %d, frac |-> %s]' % (j << 50, dy, l14(floor(A * 2 ** 64))) for (j, dy, A) in r2)
+        rows.append('  [id |-> %d, n |-> "%d", p |-> "%s", m |-> "%d",\n   r2 |-> <<\n      %s>>]' % (ci + 1, n, repr(float(p0)), m, a2))
+    return rows
+
+
 def main(out):
     global CASES, MAXA
+    huge_q = build_huge(HUGE, 14); huge_t = build_huge(HUGE_T, 40)
     rows_quick = build_rows()
-    CASES = CASES + [(250, 0.5), (10000, 0.25), (2000, 0.875), (33, 0.4375), (100000, 0.03125), (512, 0.5)]
+    CASES = CASES + [(250, 0.5), (10000, 0.25), (2000, 0.875), (33, 0.4375), (100000, 0.03125), (512, 0.5), (1000, 0.3), (500, 0.07), (77, 0.69)]
     MAXA = 40
     rows_thorough = build_rows()
     text = '''----------------------------- MODULE BtpeTable -----------------------------
@@ -139,6 +191,7 @@ def main(out):
 (* fraction of the second word in region 2, expected counts of second      *)
 (* words with y >= j in region 1; floor(2^64 .) as base-2^14 limbs.        *)
 (***************************************************************************)
+EXTENDS Integers
 BTab == <<
 %s
 >>
@@ -146,8 +199,17 @@ BTab == <<
 BTabT == <<
 %s
 >>
+
+\* huge n, moderate mode: n, m as decimal strings, proposal as dy = y - m (region 2 only)
+BTabH == <<
+%s
+>>
+
+BTabHT == <<
+%s
+>>
 =============================================================================
-''' % (',\n'.join(rows_quick), ',\n'.join(rows_thorough))
+''' % (',\n'.join(rows_quick), ',\n'.join(rows_thorough), ',\n'.join(huge_q), ',\n'.join(huge_t))
     open(out, 'w').write(text)
     print('wrote', out, len(rows_quick), len(rows_thorough))
 
